@@ -1,7 +1,7 @@
 """C10 — every block is processed to completion; a failure costs at most that block.
 
 (a) supervised in-process runs of the real per-block pipeline on hostile blocks: CPU time and peak
-    RSS are read from /proc by the supervising parent (budget 20 s + 1 s per instruction, 1.5 GiB);
+    RSS are read from /proc by the supervising parent (budget 40 s + 2 s per instruction, 1.5 GiB);
     exceptions escaping optimize_asm_block_asm_format / compare_asm_block_asm_format are violations;
 (b) CLI runs: exit status 0 and an output file, under several PYTHONHASHSEED values;
 (c) fault injection: a failpoint raising inside the front-end for one block; the output must equal
@@ -130,7 +130,7 @@ def run():
                         cur = []
     cases.sort(key=lambda c: c["_group"])
     for c in cases:
-        c["_cpu"] = 20.0 + 1.0 * len(c["block"])
+        c["_cpu"] = 40.0 + 2.0 * len(c["block"])
     # (a) supervised pool, with access to the per-worker dump files
     scratch = tempfile.mkdtemp(prefix="gasol_verif_")
     stats = {"cpu": [], "over": 0}
@@ -153,19 +153,21 @@ def run():
                             pass
                 if best:
                     where = hot_frame(scratch, int(best[5:-4]))
-                kind = {"cpu": "CPU budget (20 s + 1 s per instruction) exceeded", "rss": "memory budget (1.5 GiB) exceeded",
+                kind = {"cpu": "CPU budget (40 s + 2 s per instruction) exceeded", "rss": "memory budget (1.5 GiB) exceeded",
                         "wall": None, "crash": "worker process died"}.get(res["_fail"])
                 if kind is None:
                     self.run.inconclusive.append("wall-clock watchdog only: case %s" % case.get("idx"))
                 else:
                     blk = [(x[0], x[1]) for x in case["block"]]
                     size = expanded_term_size(blk)
-                    if size >= 50 * max(1, len(blk)) and size >= 100000:
+                    if size >= 40 * max(1, len(blk)) and size >= 1000:
                         # the block is linear but its terms, written as trees, are exponentially large: every traversal
                         # of a term that does not remember what it has visited (search_for_value_aux and its helpers)
                         # takes exponential time, and the copies made on the way can exhaust memory or the C stack
-                        kind += " on a block whose terms share sub-terms through DUP (tree size >= 2^%d for %s instructions)" % (
-                            min(size.bit_length() - 1, 16), "<= 100" if len(blk) <= 100 else "> 100")
+                        # (threshold: >= 1000 nodes and >= 40 nodes per instruction; generated blocks of every other
+                        #  kind stay below 300 nodes.  Ten doublings are already enough to come near the budget on a
+                        #  loaded machine, so the class must not depend on how far beyond the budget a case is.)
+                        kind += " on a block whose terms share sub-terms through DUP (expanded term far larger than the block)"
                         if where == "?" or where.startswith(("sfs_generator/", "greedy/", "verification/")):
                             where = "the term traversal"
                     self.run.witness("%s in %s" % (kind, where),
@@ -218,7 +220,7 @@ def run():
                        "cases_per_generator": dict(col.by_kind), "cases_per_option_set": dict(col.by_group),
                        "cli_runs": len(jobs), "cli_runs_ok": cli_ok, "fault_injection": fi, "pool": st})
     r.assumptions = ["CPU time (utime+stime from /proc), not wall time, decides; a wall-clock-only expiry is inconclusive",
-                     "budget: 20 s + 1 s per instruction and 1.5 GiB peak RSS per block (normal cost is a few ms)"]
+                     "budget: 40 s + 2 s per instruction and 1.5 GiB peak RSS per block (normal cost is a few ms)"]
     return r.finish(evaluations=col.stat["ok"] + stats["over"] + len(jobs) + fi["faults_injected"],
                     distinct_nontrivial=c.get("changed", 0) + fi["faults_contained"],
                     rule="hostile generated blocks under a supervising parent; CLI runs under 4 hash seeds; failpoints in the "
